@@ -262,7 +262,9 @@ impl ApplyOp for i64 {
     }
     fn apply_unary_op(&self, op: UnOp) -> Result<Self::Target, Self::Error> {
         match op {
-            UnOp::Neg => Ok(Primitive::Integer(-self)),
+            //i64::MIN has no positive counterpart, report the overflow like the
+            //binary operators do instead of panicking
+            UnOp::Neg => checked_i64(self.checked_neg(), BinOp::Sub),
             UnOp::Not => Err(OperatorError::unsupported_un_operation(
                 op,
                 PrimitiveKind::Integer,
